@@ -84,15 +84,21 @@ pub fn read_slp(b: &[u8], skip: bool, hash: bool) -> Result<Game, Fail> {
 	}
 }
 
-/// Two small well-formed replays of unrelated shape (v0.1 and v3.16, Ice Climbers, items), read
-/// before some of the reads below.
+/// Well-formed replays of unrelated shape (v0.1, v2.0, v3.16 with Ice Climbers and items, and a long
+/// one with Gecko codes), read before some of the reads below.
 fn prelude_games() -> &'static Vec<Vec<u8>> {
 	static G: std::sync::OnceLock<Vec<Vec<u8>>> = std::sync::OnceLock::new();
 	G.get_or_init(|| {
-		[(0u8, 1u8), (3, 16), (2, 0)]
+		let mut v: Vec<Vec<u8>> = [(0u8, 1u8), (3, 16), (2, 0)]
 			.iter()
 			.map(|v| crate::rec::record(&crate::gen::per_version_replay(*v, crate::rec::Fill::A)).doc.assemble())
-			.collect()
+			.collect();
+		// and one that is much longer than most inputs (scratch space that only ever grows is then larger
+		// than the next input needs)
+		let mut big = crate::rec::base_replay((3, 16), vec![crate::rec::pc(0, false), crate::rec::pc(3, true)], 150);
+		big.gecko = crate::rec::Gecko::Live { live: 5000, nonzero_pad: false };
+		v.push(crate::rec::record(&big).doc.assemble());
+		v
 	})
 }
 
@@ -223,6 +229,7 @@ pub fn read_slpp(b: &[u8], skip: bool) -> Result<Game, Fail> {
 	use crate::env::{EnvReader, Sched};
 	let _guard = crate::util::prepass("prepass_read_slpp", b, &crate::util::P { skip, ..Default::default() });
 	let opts = ppi::de::Opts { skip_frames: skip };
+	slpp_prelude(b, skip);
 	let plain = std::env::var("VERIF_PLAIN_READS").is_ok();
 	let variant = if plain { 0 } else { crate::util::xx(b) % 5 };
 	// "no options" is the same request as "all options off": half of those reads pass None
@@ -238,6 +245,22 @@ pub fn read_slpp(b: &[u8], skip: bool) -> Result<Game, Fail> {
 		Ok(Err(e)) => Err(Fail::Err(e.to_string())),
 		Err(p) => Err(Fail::Panic(p)),
 	}
+}
+
+/// What the thread did before must not matter (see `history_prelude`): one archive in four (by content
+/// hash) is first read cut to two thirds, or to its first 1,100 bytes, on the same thread - a read that
+/// gives up part-way - before the read that counts.
+pub fn slpp_prelude(b: &[u8], skip: bool) {
+	if std::env::var("VERIF_PLAIN_READS").is_ok() {
+		return;
+	}
+	let opts = ppi::de::Opts { skip_frames: skip };
+	let cut = match (crate::util::xx(b) >> 20) % 8 {
+		0 => &b[..b.len() * 2 / 3],
+		1 => &b[..b.len().min(1100)],
+		_ => return,
+	};
+	let _ = catch(|| ppi::read(Cursor::new(cut), Some(&opts)).map(|_| ()));
 }
 
 pub fn read_slpp_from<R: std::io::Read>(r: R, skip: bool) -> Result<Game, Fail> {
